@@ -382,6 +382,21 @@ def srv_stream(ctx):
     ctx.sample({'stream': 'srv', 'request': 'names-1', 'solo': sg.show(fresh['pg:names-1'])})
 
 
+def _oracle(ctx, lines):
+    """answers of `freshrun` lines (each one program alone in a brand-new process) used as the ORACLE of the isolation streams. On a
+    heavily loaded machine starting a process can exceed the watchdog: such an answer (timeout / crash) is asked again alone with a long
+    watchdog, and if it still cannot be had the oracle is None for that line — the comparisons that need it are skipped and counted, never
+    reported: a missing oracle says nothing about the code under check"""
+    out = []
+    for line, a in zip(lines, ctx.run_go(lines, parallel=False)):
+        tries = 0
+        while a.startswith(('timeout', 'crash')) and tries < 3:
+            tries += 1
+            a = ctx.run_go([line], timeout_ms=60000, parallel=False)[0]
+        out.append(None if a.startswith(('timeout', 'crash')) else a)
+    return out
+
+
 def run(ctx):
     rng = ctx.rng
     # ---- iso ------------------------------------------------------------------------------------------
@@ -397,11 +412,14 @@ def run(ctx):
                 cases.append((sq, q, shared))
     lines = ['seq %d %d %s %s' % (sh, len(sq) + 1, ' '.join(cps(POLLUTERS[p]) for p in sq), cps(PROBES[q])) for sq, q, sh in cases]
     fresh_lines = ['freshrun ' + cps(PROBES[q]) for q in qnames]
-    fresh = dict(zip(qnames, ctx.run_go(fresh_lines, parallel=False)))
+    fresh = dict(zip(qnames, _oracle(ctx, fresh_lines)))
     go = ctx.run_go(lines)
     for (sq, q, sh), line, g in zip(cases, lines, go):
         ctx.evaluations += 1
         ctx.count('iso:' + q)
+        if fresh[q] is None:            # the machine was too busy to start a fresh process in time: no oracle, no verdict
+            ctx.count('iso:oracle-unavailable')
+            continue
         if g != fresh[q]:
             ctx.violation('iso' + ('-shared' if sh else ''), line, g, fresh[q] + '   (probe %s alone in a fresh process; polluters %s)' % (q, '+'.join(sq)))
         ctx.nontriv(line)
@@ -409,12 +427,15 @@ def run(ctx):
     ctx.streams.append({'stream': 'iso', 'cases': len(lines), 'polluters': len(pnames), 'probes': len(qnames)})
     # ---- reexec: one loaded program executed several times -----------------------------------------------
     rnames = list(REEXEC)
-    rfresh = ctx.run_go(['freshrun ' + cps(REEXEC[r]) for r in rnames], parallel=False)
+    rfresh = _oracle(ctx, ['freshrun ' + cps(REEXEC[r]) for r in rnames])
     rlines = ['reexec 3 ' + cps(REEXEC[r]) for r in rnames]
     rgo = ctx.run_go(rlines, parallel=False)
     for r, line, g, fr in zip(rnames, rlines, rgo, rfresh):
         ctx.evaluations += 1
         ctx.count('reexec:' + r)
+        if fr is None:
+            ctx.count('reexec:oracle-unavailable')
+            continue
         want = ' ;; '.join([fr] * 3)
         if g != want:
             ctx.violation('reexec', line, g, want + '   (the program %s alone in a fresh process, three times)' % r)
